@@ -30,7 +30,10 @@ FP = ["ldb_do_compaction_work.function_pointer_call.1/vp_in_first",
 
 
 def _one(prefix, n, snaps=2, faults=1, imm=0, env=1, tier="quick", timeout=600):
-    defs = {"VP_N": n, "VP_SNAPS": snaps, "VP_FAULTS": faults, "VP_IMM": imm, "VP_ENV": env}
+    cap = 1
+    while cap < n:
+        cap = (cap * 3) // 2 + (1 if cap <= 1 else 0)   # growth policy of util/vector.c
+    defs = {"VP_N": n, "VP_SNAPS": snaps, "VP_FAULTS": faults, "VP_IMM": imm, "VP_ENV": env, "VP_VEC_CAP": cap}
     name = "%s.compaction-n%d-snaps%d-faults%d-imm%d-env%d" % (prefix, n, snaps, faults, imm, env)
     uw = {"memcpy.0": 10, "memcmp.0": 2,
           "ldb_do_compaction_work.0": n + 1, "ldb_do_compaction_work.1": 2, "ldb_do_compaction_work.2": 3,
